@@ -84,6 +84,76 @@ def scenario(g, i):
     return out, s, gen.render(b, "Snake")
 
 
+def read_opt(sb, rel):
+    try:
+        return sb.read(rel)
+    except OSError:
+        return None
+
+
+def logical_failures(R, g, fails, stats):
+    """Commands that fail for a reason inside renamify's own logic (no injected fault): a plan applied a second time by id or
+    from its file after an undo, redo of something not undone, undo of something already undone, a rename in the same second,
+    an occupied destination, an invalid pattern. Whatever exit status != 0 they report, tree and history must be as before."""
+    quick = R.tier == "quick"
+    for i in range(3 if quick else 40):
+        a, b = g.term_pair()
+        s, t = gen.render(a, "Snake"), gen.render(b, "Snake")
+        tree = [{"p": "notes.txt", "k": "f", "c": (f"use {s} here\n{gen.render(a, 'Camel')}\n").encode(), "m": 0o644},
+                {"p": "src", "k": "d", "m": 0o755},
+                {"p": f"src/{s}.rs", "k": "f", "c": (f"fn {s}() {{}}\n").encode(), "m": 0o644},
+                {"p": f"src/{s}_dir", "k": "d", "m": 0o755},
+                {"p": f"src/{s}_dir/inner_{s}.txt", "k": "f", "c": b"plain\n", "m": 0o600}]
+        G = ["--no-auto-init", "-y"]
+        scripts = {
+            "reapply_by_id_after_undo": [G + ["rename", s, t], G + ["undo", "latest"], "APPLY_FIRST_ID"],
+            "reapply_by_id_after_undo_redo_undo": [G + ["rename", s, t], G + ["undo", "latest"], G + ["redo", "latest"], G + ["undo", "latest"], "APPLY_FIRST_ID"],
+            "reapply_plan_file_after_undo": [G + ["plan", s, t, "--plan-out", "saved_plan.json", "--quiet"], G + ["apply", "saved_plan.json"],
+                                             G + ["undo", "latest"], G + ["apply", "saved_plan.json"]],
+            "reapply_plan_file_directly": [G + ["plan", s, t, "--plan-out", "saved_plan.json", "--quiet"], G + ["apply", "saved_plan.json"],
+                                           G + ["apply", "saved_plan.json"]],
+            "redo_not_undone": [G + ["rename", s, t], G + ["redo", "latest"]],
+            "undo_twice": [G + ["rename", s, t], G + ["undo", "latest"], "UNDO_FIRST_ID"],
+            "redo_twice": [G + ["rename", s, t], G + ["undo", "latest"], G + ["redo", "latest"], "REDO_FIRST_ID"],
+            "same_second_repeat": [G + ["rename", s, t], G + ["undo", "latest"], G + ["rename", s, t], G + ["undo", "latest"], G + ["rename", s, t]],
+            "occupied_destination": ["OCCUPY", G + ["rename", s, t]],
+            "apply_without_plan": [G + ["apply"]],
+            "unknown_id": [G + ["rename", s, t], G + ["undo", "0123456789abcdef"], G + ["redo", "0123456789abcdef"], G + ["apply", "0123456789abcdef"]],
+            "invalid_regex": [G + ["replace", "(" + s, t]],
+        }
+        for name, script in scripts.items():
+            with cli.Sandbox(tree) as sb:
+                first_id = None
+                for step, cmd in enumerate(script):
+                    if cmd == "OCCUPY":
+                        (sb.root / "src" / f"{t}.rs").write_bytes(b"occupant\n")
+                        continue
+                    if isinstance(cmd, str):
+                        if first_id is None:
+                            break
+                        cmd = G + [cmd.split("_")[0].lower(), first_id]
+                    before, hb = sb.snapshot(), read_opt(sb, ".renamify/history.json")
+                    ids_b = hist_ids(sb)
+                    rc, o, e = sb.run(cmd)
+                    after, ha = norm_snap(sb.snapshot()), read_opt(sb, ".renamify/history.json")
+                    ids_a = hist_ids(sb)
+                    if first_id is None and ids_a and ids_a != "UNPARSABLE":
+                        first_id = ids_a[0]
+                    stats["logical_commands"] = stats.get("logical_commands", 0) + 1
+                    R.case(("logical", name, step, s, t), nontrivial=True)
+                    if rc == 0:
+                        continue
+                    stats["logical_rejected"] = stats.get("logical_rejected", 0) + 1
+                    stats.setdefault("logical_by_script", {})[name] = stats.setdefault("logical_by_script", {}).get(name, 0) + 1
+                    if after != norm_snap(before) or ids_a != ids_b or (hb is not None and ha != hb):
+                        fails.append({"why": f"'{' '.join(cmd[2:])}' failed (exit {rc}) without an injected fault and yet changed the tree or "
+                                             f"the history (script {name}, step {step})", "script": name, "step": step,
+                                      "commands": [c if isinstance(c, str) else " ".join(c) for c in script],
+                                      "diff": repr(cli.diff_snap(norm_snap(before), after))[:1000], "history_before": ids_b, "history_after": ids_a,
+                                      "stderr": e.decode("utf-8", "replace")[-300:], "tree": cli.tree_json(tree), "search": s, "replace": t})
+                        break
+
+
 def run(R):
     R.trusted += ["Coq 8.16.1 kernel", "strace -e inject (error at the n-th call)", "extraction + modelrun.ml",
                   "Python reference interpreter"]
@@ -242,6 +312,7 @@ def run(R):
                               "diff": repr(cli.diff_snap(b3, a3))[:1200], "tree": cli.tree_json(tree), "search": search,
                               "replace": replace, "perturbation": kind, "victim": victim})
     M.close()
+    logical_failures(R, g, fails, stats)
     R.coverage["input_distribution"] = stats
     R.disagreements = len(dis)
     listed = {f["class"]: f for f in core.known_findings("C04")}
